@@ -146,7 +146,15 @@ class TLSSession(Session):
         self._post_connect()
 
     def _transport_read(self):
-        return self._socket.recv(BUF_SIZE)
+        data = self._socket.recv(BUF_SIZE)
+        # The session thread waits for the TCP socket to become readable, but
+        # OpenSSL reads and decrypts a TLS record (up to 16 kB) as a whole and
+        # recv() hands out at most BUF_SIZE octets of it: the rest of the record
+        # is not seen by select() and would wait until the peer sends something
+        # else (a reply longer than BUF_SIZE was delivered only then).
+        while data and self._socket.pending() > 0:
+            data += self._socket.recv(BUF_SIZE)
+        return data
 
     def _transport_write(self, data):
         return self._socket.send(data)
